@@ -48,7 +48,23 @@ fn scratch(tag: &str) -> PathBuf {
     std::fs::canonicalize(&d).unwrap_or(d)
 }
 
+/// Files named like the include files, in the current directory of the process: a relative include
+/// is resolved through the search list (or QASM3_PATH), never against the current directory.
+fn cwd_decoys() {
+    use std::sync::Once;
+    static ONCE: Once = Once::new();
+    ONCE.call_once(|| {
+        // (only for inc0.qasm, which every case keeps readable in a searched directory: what happens to a
+        // relative include that is on no search path at all is not something the property settles)
+        let p = PathBuf::from(fname(0));
+        if !p.exists() {
+            let _ = std::fs::write(&p, "int cwd_decoy_must_not_be_read = 1;\nint cwd_decoy_must_not_be_read = 2;\n");
+        }
+    });
+}
+
 fn build(seed: u64) -> Layout {
+    cwd_decoys();
     let mut r = Rng::new(seed);
     let root = scratch("c18");
     let ndirs = r.range(1, 3) as usize;
@@ -127,6 +143,18 @@ fn build(seed: u64) -> Layout {
     }
     let keep = r.range(1, ndirs as u64) as usize;
     search.truncate(keep);
+    // inc0.qasm is readable in at least one searched directory (a same-named file sits in the
+    // current directory of the process, see cwd_decoys)
+    if !search.iter().any(|&d| presence[0][d] == Presence::File) {
+        let d0 = *search.last().unwrap();
+        let p = dirs[d0].join(fname(0));
+        if presence[0][d0] == Presence::Directory {
+            let _ = std::fs::remove_dir_all(&p);
+        }
+        presence[0][d0] = Presence::File;
+        n_present[0] += 1;
+        let _ = std::fs::write(&p, &content[0][d0]);
+    }
     // main program
     let mut main = String::from("int[32] before = 1;\n");
     if r.chance(1, 2) {
